@@ -610,6 +610,11 @@ def rand_stmts(rng, env, n, depth=0):
             init = rand_expr(rng, env, 1) if rng.random() < 0.7 else None
             out.append(Local(ty, name, init, final=rng.random() < 0.15))
             if name not in env["vars"]: env["vars"] = env["vars"] + [name]
+        elif r < 0.29 and (env["vars"] or env["fields"]):
+            # a field, parameter or local re-assigned with an object of another class, then used as a receiver
+            n = rng.choice(env["vars"] + env["fields"])
+            out.append(ExprS(Assign(Name(n), New(T(rng.choice(env["types"])), []))))
+            out.append(ExprS(Call(Name(n), rng.choice(METHOD_NAMES), [])))
         elif r < 0.65:
             e = rand_expr(rng, env)
             if e.k not in ("call", "new", "assign"):
